@@ -1267,7 +1267,7 @@ func main() {
 
 	// ---- combination-ID slice boundaries: the dropped subset is the first / last
 	// combination of a goroutine's slice (and the neighbours), per (measurements, dropped, GOMAXPROCS) ----
-	for _, cfg := range [][2]int{{4, 2}, {5, 2}, {5, 3}, {6, 2}, {6, 3}, {7, 1}} {
+	for _, cfg := range [][2]int{{4, 2}, {5, 2}, {5, 3}, {6, 2}, {6, 3}, {7, 1}, {7, 2}} {
 		n, k := cfg[0], cfg[1]
 		// k-subsets of 0..n in lexicographic order (the iterator is created with maxValue = n)
 		var combs [][]int
@@ -1342,6 +1342,39 @@ func main() {
 				h.scenario(scenario{kind: "e2e-slice-boundary", log: t.CommandLog, alg: alg, st: st, pert: p, gs: []int{g},
 					source: fmt.Sprintf("boot simulation (PCR0_DATA) + %d appended TPMExtend; dropped subset = combination ID %d of %d (k=%d), GOMAXPROCS=%d", n-1, id, amount, k, g)})
 			}
+		}
+	}
+
+	// ---- combinatorial strategy: bit flips at byte/word boundaries, at and beyond the distance limit ----
+	for _, alg := range []tpm.Algorithm{tpm2.AlgSHA1, tpm2.AlgSHA256} {
+		type fl struct {
+			limit int
+			bits  []int
+		}
+		flips := []fl{{1, []int{0}}, {1, []int{7}}, {2, []int{8}}, {1, []int{63}}, {1, []int{rng.Intn(64)}},
+			{2, []int{0, 63}}, {2, []int{7, 8}}, {2, rng.Perm(64)[:2]}, {1, rng.Perm(64)[:2]}, {0, []int{rng.Intn(64)}}}
+		for _, f := range flips {
+			t := bootLog(h.randReg(), []uint8{0, 3}[rng.Intn(2)], rng.Intn(2) == 0, [][]byte{{byte(rng.Intn(256)), 1}})
+			st := pcrbruteforcer.SettingsReproducePCR0{MaxDisabledMeasurements: 1 + rng.Intn(2), MaxReorders: rng.Intn(2)}
+			st.MaxACMPolicyLinearDistance = []int{0, 2}[rng.Intn(2)]
+			st.EnableACMPolicyCombinatorialStrategy = true
+			st.MaxACMPolicyCombinatorialDistance = f.limit
+			label := "in"
+			if len(f.bits) > f.limit {
+				label = "flip>limit"
+			}
+			bs := append([]int(nil), f.bits...)
+			for i := range bs { // keep "beyond the limit" out of reach of the linear strategy
+				if label == "flip>limit" && bs[i] < 8 {
+					bs[i] += 8
+				}
+			}
+			if label == "flip>limit" && len(bs) == 2 && bs[0] == bs[1] {
+				bs[1] = (bs[0] + 1) % 64
+			}
+			p := perturbation{label: label, loc: []uint8{0, 3}[rng.Intn(2)], acm: acmChange{kind: "flip", bits: bs}}
+			h.scenario(scenario{kind: "e2e-flips", log: t.CommandLog, alg: alg, st: st, pert: p, gs: []int{1, 3, 16},
+				source: "boot simulation on fake_intel_firmware.fd (PCR0_DATA, 1 Measure step), combinatorial strategy enabled"})
 		}
 	}
 
